@@ -58,7 +58,7 @@ def run_m(res):
     tv_engine.build()
     import gen, tvrun, tv, lang
     mir_path = dump_mir()
-    progs = [p for p in gen.corpus(res.seed, res.tier) if p.meta["family"] in ("F1", "F2", "F3", "F8", "F9")]
+    progs = [p for p in gen.corpus(res.seed, res.tier) if p.meta["family"] in ("F1", "F2", "F8", "F9") or (p.meta["family"] == "F3" and int(p.meta["name"].split("_")[-1]) < (60 if res.tier == "quick" else 400))]
     shutil.rmtree(tvrun.WORK, ignore_errors=True)
     os.makedirs(os.path.join(tvrun.WORK, "src"))
     os.makedirs(os.path.join(tvrun.WORK, "dump"))
